@@ -121,12 +121,21 @@ pub enum StreamEnd {
 pub enum Ev {
     Invoke { call: u32, req: Req, abandon_at: u32 },
     Return { call: u32, out: Outcome },
-    StreamOpen { slot: u32, sub: String, max_msgs: i64, max_bytes: i64 },
+    StreamOpen {
+        slot: u32,
+        sub: String,
+        max_msgs: i64,
+        max_bytes: i64,
+        #[serde(default)]
+        window: u32,
+    },
     /// The initial call returned (headers) – Ok or an error status.
     StreamStarted { slot: u32, code: Code },
     StreamItem { slot: u32, recvs: Vec<Recv> },
     StreamSend { slot: u32, acks: Vec<String>, modacks: Vec<String>, modack_secs: Vec<i32>, hostile: bool },
     StreamCloseReq { slot: u32 },
+    /// The client of a windowed stream stops / resumes reading responses.
+    StreamStall { slot: u32, on: bool },
     StreamEnd { slot: u32, end: StreamEnd },
     CancelBg { slot: u32 },
     Post {
